@@ -2,6 +2,7 @@
 # tools/merge_all.sh cNN [PID ...] : merge branch cNN of /repo and /verif, regenerate, build, commit, run the checks PID...
 b=$1; shift
 cd /verif
+git add -A && git commit -q -m "evidence/seeded updates before merging $b" 2>/dev/null
 tools/merge_branch.sh $b > /tmp/merge_$b.log 2>&1
 tools/fix_verif_mod.py
 ru=$(git -C /repo diff --name-only --diff-filter=U | grep -v src/verif/mod.rs)
